@@ -10,8 +10,8 @@ ID = "C06"
 LEVEL = "exploration"
 LEVEL_TEXT = ("Complete enumeration of every expression tree with <=3 binary operators (thorough: <=4) over the 7 binary "
               "operators with up to two unary operators at any node (stacked ones included), rendered with minimal and with "
-              "redundant parentheses and three spacing styles, evaluated by the real code in eight contexts (string evaluator, "
-              "instruction operand, .dl, `=`, `:=`, macro argument, .if, .for bound) and compared with an independent tree "
+              "redundant parentheses and five spacing styles (incl. a blank on one side of an operator only), evaluated by the real code in nine contexts (string evaluator, "
+              "immediate and direct instruction operand, .dl, `=`, `:=`, macro argument, .if, .for bound) and compared with an independent tree "
               "evaluator; plus all operator pairs around boundary literals and all literal spellings. The suite has ~15 "
               "hand-written expressions; this covers every operator combination within the bound.")
 LEVEL_NOTE = ("Trusted: mc/ref/expr.py (tree evaluator with the precedence order stated in C06). Trees that apply ~ to a negative "
@@ -35,7 +35,7 @@ DIRECTIVE_OK = {"+", "-", "*", "&", "<<", ">>", "u-"}
 def bound(tier):
     if tier == "thorough":
         return "trees: <=3 binary ops x <=2 unary (all renderings, all contexts); 4 binary ops x <=1 unary (2 renderings, 2 contexts); operator pairs x 10 boundary literals; literal spellings"
-    return "trees: <=2 binary ops x <=2 unary (5 renderings, 8 contexts); 3 binary ops x <=1 unary (2 renderings, 2 contexts); operator pairs x 10 boundary literals; literal spellings"
+    return "trees: <=2 binary ops x <=2 unary (7 renderings, 9 contexts); 3 binary ops x <=1 unary (2 renderings, 2 contexts); operator pairs x 10 boundary literals; literal spellings"
 
 
 def cases(tier, seed):
@@ -56,6 +56,7 @@ def cases(tier, seed):
             yield ("pair", op1, op2)
     yield ("unary-boundary",)
     yield ("literals",)
+    yield ("after-failure",)
 
 
 def describe(case, res):
@@ -99,6 +100,26 @@ def ctx_opw(text):
     return int.from_bytes(d[1:], "little")
 
 
+def ctx_opdirect(text):
+    d = _bytes(_asm(f"lda.l {text}\n"))
+    if len(d) != 4 or d[0] != 0xAF:
+        raise RuntimeError("unexpected bytes " + d.hex())
+    return int.from_bytes(d[1:], "little")
+
+
+def wholly_parenthesised(text):
+    t = text.strip()
+    if not t.startswith("("):
+        return False
+    depth = 0
+    for i, c in enumerate(t):
+        depth += c == "("
+        depth -= c == ")"
+        if depth == 0:
+            return i == len(t) - 1
+    return False
+
+
 def ctx_dl(text):
     d = _bytes(_asm(f".dl {text}\n"))
     if len(d) != 3:
@@ -137,6 +158,8 @@ def ctx_for(text):
 CONTEXTS = {
     "str": (ctx_str, "operand", lambda v: v, lambda v: True),
     "opw": (ctx_opw, "operand", lambda v: v & 0xFFFF, lambda v: True),
+    # direct (non-immediate) instruction operand; `lda.l (expr)` would be the indirect syntax, so that spelling is skipped
+    "opdirect": (ctx_opdirect, "operand", lambda v: v, lambda v: 0 <= v <= 0xFFFFFF),
     "dl": (ctx_dl, "directive", lambda v: v & 0xFFFFFF, lambda v: True),
     "eq": (ctx_eq, "directive", lambda v: v, lambda v: True),
     "assign": (ctx_assign, "directive", lambda v: v, lambda v: True),
@@ -184,6 +207,8 @@ def check_text(tree, text, value, ctxs, viol, stats):
             continue
         if not applicable(value):
             continue
+        if name == "opdirect" and wholly_parenthesised(text):
+            continue
         n += 1
         try:
             got = fn(text)
@@ -201,7 +226,7 @@ def check_text(tree, text, value, ctxs, viol, stats):
     return n
 
 
-RENDERINGS_FULL = [("min", ""), ("min", " "), ("min", "x"), ("full", ""), ("full", "x")]
+RENDERINGS_FULL = [("min", ""), ("min", " "), ("min", "x"), ("min", "l"), ("min", "r"), ("full", ""), ("full", "x")]
 RENDERINGS_LITE = [("min", ""), ("full", " ")]
 
 
@@ -322,7 +347,40 @@ def run_literals():
     return {"evals": evals, "nt_count": nt, "outcome": "literals-ok" if not viol else "LITERALS-VIOLATION", "violations": viol[:40]}
 
 
+def run_after_failure():
+    """Evaluations that end in an error (comparison operators, unknown operators, undefined names, unbalanced parentheses) must
+    leave nothing behind: the same list of expressions is checked after each kind of failed evaluation."""
+    viol = []
+    stats = {}
+    evals = nt = 0
+    spoilers = [".if -1 > 0 {\n}\n", ".if 3 + 2 == 5 {\n}\n", ".if 1 - nosuch1 != 2 {\n}\n", ".db 4 / 2\n", ".db (1 + 2\n", ".db 1 + nosuch2 * 3\n",
+                "lda.w #~~\n", "lda.w #3 +\n", ".db 1 <<\n", "vv = -nosuch3 * 2\n", ".if ~1 < 2 {\n}\n"]
+    probes = [("b", "+", ("n", 1, "1"), ("b", "*", ("n", 2, "2"), ("n", 3, "3"))), ("u", "-", ("n", 5, "5")), ("n", 0x11, "0x11"),
+              ("b", "|", ("n", 0x10, "0x10"), ("u", "~", ("n", 3, "3"))), ("b", "-", ("n", 10, "10"), ("b", "-", ("n", 2, "2"), ("n", 3, "3"))),
+              ("b", "<<", ("n", 1, "1"), ("b", "+", ("n", 2, "2"), ("n", 1, "1"))), ("b", "&", ("u", "-", ("n", 1, "1")), ("n", 0xFF, "0xff"))]
+    for sp in spoilers:
+        for _ in range(2):
+            impl.assemble(PRELUDE + sp)
+            try:
+                ctx_str(sp.split("\n")[0].replace(".db ", "").replace(".if ", "").replace(" {", ""))
+            except BaseException as e:  # noqa: BLE001
+                if isinstance(e, (KeyboardInterrupt, SystemExit, impl.Timeout)):
+                    raise
+        for t in probes:
+            v = rx.evaluate(t)
+            for style, spc in (("min", ""), ("min", " ")):
+                before = len(viol)
+                evals += check_text(t, rx.render(t, style, spc), v, FULL, viol, stats)
+                nt += 1
+                for x in viol[before:]:
+                    x["key"] = "expr:value-depends-on-an-earlier-failed-evaluation"
+                    x["msg"] = f"after `{sp.strip()}`: " + x["msg"]
+    return {"evals": evals, "nt_count": nt, "outcome": "after-failure-ok" if not viol else "AFTER-FAILURE-VIOLATION", "violations": viol[:10]}
+
+
 def run_case(case):
+    if case[0] == "after-failure":
+        return run_after_failure()
     if case[0] == "tree":
         return run_trees(*case[1:])
     if case[0] == "pair":
